@@ -355,17 +355,19 @@ func refTop[T any](chunks []T, direct bool) (any, error) {
 	}
 	t := reflect.TypeOf((*T)(nil)).Elem()
 	if t.Kind() == reflect.Interface {
-		// interface-typed stream: no function can be registered → single non-nil rule
+		// interface-typed stream: nil chunks carry nothing; what the other chunks hold is concatenated
+		// by its own dynamic type, the way the values of a map[string]any are (eino 751fcbd; before that
+		// repair two non-nil chunks always failed, which made Invoke and Stream of one graph disagree)
 		var found any
-		n := 0
+		var nonNil []any
 		for _, c := range chunks {
 			if any(c) != nil {
-				n++
+				nonNil = append(nonNil, c)
 				found = c
 			}
 		}
-		if n > 1 {
-			return nil, errRef
+		if len(nonNil) > 1 {
+			return refMerge(nonNil, true)
 		}
 		return found, nil
 	}
